@@ -169,6 +169,8 @@ class LoopHooks(Hooks):
             eng.require(f"{label}/range-step-nonzero", c)
         for c in defs:
             eng.assume(c)
+        if "ghost_init" in spec:
+            spec["ghost_init"](env)                 # ghost variables of the contract (never read by the code)
         # establish
         eng.require(f"inv.establish:{label}", inv(env, 0 if not is_sym(lo) else z3.IntVal(0)))
         # havoc
@@ -196,13 +198,18 @@ class LoopHooks(Hooks):
                 pass
             except _Break:
                 raise Unsupported("break in annotated loop")
+            if "ghost_update" in spec:
+                spec["ghost_update"](env, j)        # the contract's witness for the ghost state after this iteration
             eng.require(f"inv.preserve:{label}", inv(env, j + 1))
             eng.state["preserve_env"] = dict(env)      # state after one generic iteration, for the contract to inspect
             eng.state["preserve_iter"] = j
             raise PathAbort()
         # use: after the loop
         eng.assume(inv(env, count))
-        if count is not None:
-            # the loop variable keeps its last value only if count > 0; not modelled (unused after these loops)
-            pass
+        if spec.get("bind_last"):
+            # the code reads the loop variable after the loop: it keeps the value of the last iteration, and is
+            # unbound (UnboundLocalError) when there was none
+            if eng.branch(count <= 0):
+                raise Raise("UnboundLocalError")
+            bind(count - 1)
         eng.block(node.orelse, env)
